@@ -209,6 +209,8 @@ Record c16case := {
   j_feasible : bool;                 (* network.is_feasible(X) *)
   j_feasible_lin : bool;             (* network.is_feasible(X, linear=True) *)
   j_iface : option bool;             (* Interface.is_feasible({station id: row}) on a Simulator+Interface of the site *)
+  j_alg : option bool;               (* utils.infrastructure_constraints_feasible(X, interface.infrastructure_info());
+                                        None: not obtained (open finding object-dtype-matrix, see known_findings.json) *)
   j_reload : bool;                   (* ChargingNetwork.from_json(network.to_json()).is_feasible(X) *)
   j_reload_iface : option bool;      (* Interface.is_feasible({station id: row}) on the reloaded network *)
   j_power : list Q                   (* per transformer: sum over the stations behind it of V_i * X_i0 *)
@@ -227,6 +229,14 @@ Definition check_c16 (c : c16case) : bool :=
                       | _, _ => false
                       end in
       agrees (j_iface c) && agrees (j_reload_iface c))
+  (* the algorithm-side check on the site's InfrastructureInfo (default call, as the algorithms use it) *)
+  && (match infrastructure_info QF (site_net_Q s) with
+      | Ok inf => match j_alg c with
+                  | Some b => Bool.eqb (alg_is_feasible_default QF inf (k_X c) (k_T c) false) b
+                  | None => true
+                  end
+      | Err _ => false
+      end)
   (* a network reloaded from its own JSON answers like the original *)
   && Bool.eqb (net_is_feasible QF (site_net_Q s) (k_X c) (k_T c) false None None) (j_reload c)
   && list_eqb Qclose
